@@ -775,3 +775,15 @@ def sink_attr(it, obj, name, node):
         b.attrs = {'tell': tell}
         return b
     return None
+
+
+class GhostT(Ty):
+    """a ghost value of an arbitrary z3 sort (used for ghost variables of loops only)"""
+    def __init__(self, sort):
+        self._sort = sort
+
+    def sort(self): return self._sort
+
+    def wrap(self, t): return VOpaque(t)
+
+    def __repr__(self): return 'GhostT(%s)' % self._sort
